@@ -772,11 +772,14 @@ class MultiStream(Stream):
                 other_phase_index = self.imol.get_phase_index(other.phase)
                 data[other_phase_index, :] = other_data
                 data[phase_index, IDs_index] = original_data[phase_index, IDs_index]
-                if remove and (phase is ... or phase_index == other_phase_index):
-                    excluded_data = other_data[IDs_index]
-                    if hasattr(excluded_data, 'copy'): excluded_data = excluded_data.copy()
-                    other_data[:] = 0.
-                    other_data[IDs_index] = excluded_data   
+                if remove:
+                    if phase is ... or phase_index == other_phase_index:
+                        excluded_data = other_data[IDs_index]
+                        if hasattr(excluded_data, 'copy'): excluded_data = excluded_data.copy()
+                        other_data[:] = 0.
+                        other_data[IDs_index] = excluded_data   
+                    else: # Nothing in the other stream's phase is excluded; all of it was copied
+                        other_data[:] = 0.
         elif multiphase:
             data[phase_index, IDs_index] = other_data[phase_index, IDs_index]
             if remove: other_data[phase_index, IDs_index] = 0.
